@@ -283,7 +283,7 @@ var checks = []Check{
 		Stub:         []string{vrfStub, "block author = harness code (fallback and ticket seals through the stand-in, real Ed25519 for disputes); it is not an oracle", "multi-node = sequential incarnations of the process-wide chain-state singleton separated by SetState"},
 		Assumptions:  []string{"the VRF is a stand-in: nothing about Bandersnatch is decided and ticket identifiers are stand-in outputs", "one chain state per process: the clean reference node and the node under test are sequential incarnations", "blocks come from the harness author: chains of 3-30 (thorough 60) blocks over several epochs with tickets, preimages, disputes (also against pending reports), assurances, guarantees (current and previous rotation, dependencies between packages) and the accumulation of the reports that become available by real PVM runs of small generated service programs (fetch, write, checkpoint, assign, transfer, forget + solicit of one preimage that thereby runs through its whole life cycle, new - services born on chain -, yield)"},
 		LevelText:    "seeded exploration with a reference model; evidence, not proof. Stage A: no pending reports, so the 'removed from pending availability' clause is only checked vacuously",
-		LevelNote:    "at most two offenders per history so that enough keyed validators remain to author blocks",
+		LevelNote:    "at most two offenders per history so that enough keyed validators remain to author blocks; histories run the tiny parameter set, one run in six also evaluates the disputes transition alone under the full set (1023 Ed25519 validators)",
 		Technique:    "deterministic simulation of the node under seeded block histories with fault injection (invalid blocks rejected at chosen STF stages, retries, children of rejected blocks, forks, restarts from exported state), reference-node and reference-model oracles, tape shrinking + fresh-process replay",
 		DesignRef:    "DESIGN.md §4 H4, Appendix A",
 		ExpectProbes: []string{"probe:verdict_good", "probe:verdict_bad", "probe:verdict_wonky", "probe:offenders_added", "fault:invalid_block:verdict-other-vote-count", "probe:judged_report_left_pending_availability", "fault:judged_report_judged_again_with_another_class"},
@@ -415,7 +415,7 @@ var checks = []Check{
 		Stub:         []string{vrfStub + " (only so that the package compiles; not executed)"},
 		Assumptions:  []string{"oracle = the repository's own uncached root for the same entries (the property is an equivalence); an independent bit-level reference trie is also evaluated and its disagreements are counted as a by-product (C15 is not claimed)"},
 		LevelText:    "seeded exploration of computation histories with the cache capacity as a randomised knob, explicit clears and instance resets as faults; evidence, not proof",
-		LevelNote:    "types.MaxKeyLevelCacheSize is a package variable and is varied by the harness; entries <= ~50 per history",
+		LevelNote:    "types.MaxKeyLevelCacheSize is a package variable and is varied by the harness; entries <= ~50 per history, except one history in ten which holds 65-1300 entries (bulk arm, real capacity)",
 		Technique:    "deterministic simulation: seeded operation histories on a long-lived component with randomised tuning knob, differential oracle (cached vs from-scratch), tape shrinking + fresh-process replay",
 		DesignRef:    "DESIGN.md §4 H5, §5 C16",
 		ExpectProbes: []string{"probe:value_changed_same_length", "probe:embedded_hashed_flip", "probe:key_reinserted", "probe:value_padded_or_trimmed_with_zero_octets", "probe:value_one_octet_changed", "probe:hundreds_of_entries_all_cached", "fault:cache_cleared", "fault:instance_reset", "probe:capacity_exceeded_during_walk"},
@@ -445,7 +445,7 @@ var checks = []Check{
 		Assumptions: []string{"sequential histories only: Pebble's and go-redis' internal goroutines are outside the simulator, so no concurrent arm and no I/O-error injection (the property promises nothing under I/O errors)",
 			"miniredis returns SCAN results sorted, so an unsorted real Redis reply cannot be observed here"},
 		LevelText:    "seeded exploration of operation histories (<= 40 operations, keys over a small alphabet with glob metacharacters, empty keys/values) on the three real providers against a sorted-map reference model, with every argument buffer overwritten after each call and returned slices either scribbled or held and re-checked at the end; evidence, not proof",
-		LevelNote:    "Redis server is the miniredis stand-in (keys restricted to bytes it can translate; backslash/0x80/0xff only in the memory+Pebble arm), Pebble runs on MemFS; sequential histories only, no I/O-error injection",
+		LevelNote:    "Redis server is the miniredis stand-in, a fresh server per run (keys restricted to bytes it can translate; backslash/0x80/0xff only in the memory+Pebble arm), Pebble runs on MemFS; sequential histories only, no I/O-error injection",
 		Technique:    "deterministic simulation: seeded operation/fault histories vs reference model (differential over 3 providers), tape shrinking + fresh-process replay",
 		DesignRef:    "DESIGN.md §4 H5, §5 C27",
 		ExpectProbes: []string{"probe:iter_start_not_prefix", "probe:batch_commit", "probe:batch_discard", "probe:glob_meta_key", "probe:empty_key", "probe:empty_value", "fault:scribble_args", "fault:scribble_result"},
